@@ -62,6 +62,25 @@ def auto_discharge(site, fn, T, panic_abort):
     return None
 
 
+def pnames(fn, ty_substr=None, index=None):
+    """Names of the parameters of the user-level function of body `fn` whose type contains `ty_substr` (or at
+    position `index`). Rules identify a parameter by its type/position - never by its (renameable) name."""
+    while fn.parent is not None:
+        fn = fn.parent
+    vn = fn.var_names()
+    out = set()
+    for i in range(1, fn.argc + 1):
+        if (ty_substr is None or ty_substr in fn.locals[i].s) and (index is None or index == i):
+            if i in vn:
+                out.add(vn[i])
+    return out
+
+
+def is_p(t, names):
+    """t is a parameter (or a capture of it in the async body / a closure) with one of `names`"""
+    return t[0] in ("upvar", "param") and t[-1] in names
+
+
 def load_table(name):
     p = os.path.join(os.path.dirname(os.path.dirname(os.path.abspath(__file__))), "tables", name)
     with open(p) as fh:
